@@ -55,6 +55,10 @@ class Ctx:
         self.scratch = tempfile.mkdtemp(prefix="verif-%s-" % prop, dir=base)
         self.keep = bool(os.environ.get("VERIF_KEEP"))
         atexit.register(self.cleanup)
+        if not os.environ.get("VERIF_NO_EVIDENCE"):
+            import glob
+            for old in glob.glob(os.path.join(REPLAY_DIR, prop + "-*.json")):
+                os.unlink(old)       # replays of earlier runs of this property are stale
         self.tlc_stats = []      # one dict per TLC run
         self.notes = []
         self._vh = {}
